@@ -940,8 +940,9 @@ class IntronPathProcessor:
         leftmost_start = all_possible_starts[0]
         if trusted and start <= leftmost_start[1] and leftmost_start[0] == VERTEX_read_start:
             return leftmost_start
-        elif not trusted and start >= leftmost_start[1] and \
+        elif not trusted and start >= leftmost_start[1] - self.params.apa_delta and \
                 (len(all_possible_starts) <= 1 or start < all_possible_starts[1][1]):
+            # non trusted should start after leftmost position - apa_delta but not later than the second one
             return leftmost_start
         return None
 
